@@ -50,7 +50,8 @@ BadKeys == CASE BadPkR = "all" -> SmallOrderEncodings \cup OtherEncodings
 
 
 SmallStrings == {<<>>, Lit(<<0>>), Lit(<<97>>), Lit(<<97, 0>>), Lit(<<0, 97>>), Lit(<<97, 97>>)}
-LeafStrings(n) == {<<>>, Leaf(n \o "a", 1), Leaf(n \o "b", 32), Leaf(n \o "c", 65)}
+\* lengths straddle the hash output and block sizes (32/48/64, 64/128): a value cut at any of them shows
+LeafStrings(n) == {<<>>, Leaf(n \o "a", 1), Leaf(n \o "b", 32), Leaf(n \o "c", 65), Leaf(n \o "d", 160)}
 LongStrings(n) == {<<>>, Leaf(n \o "1", 1), Leaf(n \o "65535", 65535), Leaf(n \o "65536", 65536), Leaf(n \o "70000", 70000)}
 ValsOf(n) == CASE Vals = "small" -> SmallStrings [] Vals = "long" -> LongStrings(n) [] OTHER -> LeafStrings(n)
 InfoVals  == ValsOf("info")
@@ -68,11 +69,11 @@ SP(su, mo, inf, pp) ==
      pkS |-> IF mo \in AuthModes THEN KP("S1", su[1]).pk ELSE <<>>,
      rng |-> Rng("E1", su[1])]
 PairsFor(mo) == IF mo \in PskModes THEN PskPairs ELSE {<<<<>>, <<>>>>}
-OneInfo == CASE Vals = "small" -> Lit(<<97>>) [] Vals = "long" -> Leaf("info70000", 70000) [] OTHER -> Leaf("infob", 32)
+OneInfo == CASE Vals = "small" -> Lit(<<97>>) [] Vals = "long" -> Leaf("info70000", 70000) [] OTHER -> Leaf("infod", 160)
 OnePair(mo) == IF mo \in PskModes
                THEN (CASE Vals = "small" -> <<Lit(<<97, 0>>), Lit(<<0>>)>>
                        [] Vals = "long" -> <<Leaf("psk65536", 65536), Leaf("pskid65535", 65535)>>
-                       [] OTHER -> <<Leaf("pskb", 32), Leaf("pskidc", 65)>>)
+                       [] OTHER -> <<Leaf("pskd", 160), Leaf("pskidd", 160)>>)
                ELSE <<<<>>, <<>>>>
 SenderParams ==
     IF Shape = "one"
@@ -88,7 +89,10 @@ Matching(p) ==
      pkS |-> p.pkS]
 
 \* single-component perturbations (and the listed boundary shifts) of the matching receiver
-Bits(v) == 0..(8 * BLen(v) - 1)
+\* every bit of a short value; of a long one every bit of the bytes at the hash / block boundaries and of the last byte
+BoundaryBytes(n) == {0, 15, 16, 31, 32, 47, 48, 63, 64, 127, 128, 129, n - 1} \cap 0..(n - 1)
+Bits(v) == IF BLen(v) <= 40 THEN 0..(8 * BLen(v) - 1)
+           ELSE {8 * b + k : b \in BoundaryBytes(BLen(v)), k \in 0..7}
 Variant(p, k) ==
     LET m == Matching(p) kem == p.suite[1] IN
     CASE k = "none"  -> {m}
